@@ -18,6 +18,16 @@ def _proj(G):
 
 
 EMPTY_G = {"nodes": [], "jd": [], "edges": []}
+_HELD = {}      # results of the previous case, kept alive: a later conversion must not change an earlier result
+
+
+def _proj_el(el2):
+    par = len(el2.edge_list) == len(el2.topologies) == len(el2.motif_id)
+    rows = []
+    if par:
+        for e, t, m in zip(el2.edge_list, el2.topologies, el2.motif_id):
+            rows.append({"a": int(e[0]), "b": int(e[1]), "top": str(t), "mid": int(m)})
+    return {"jds": [[int(x) for x in j] for j in el2.joint_degrees], "rows": rows, "parallel": par}
 
 
 def execute(case):
@@ -30,7 +40,8 @@ def execute(case):
     tr = {"case": case, "jds": [list(j) for j in case["jds"]],
           "rows": [{"a": r[0], "b": r[1], "top": str(r[2]), "mid": r[3]} for r in case["rows"]],
           "raised_fwd": "", "raised_back": "", "raised_again": "", "G": EMPTY_G, "G2": EMPTY_G,
-          "el2": {"jds": [], "rows": [], "parallel": True}}
+          "el2": {"jds": [], "rows": [], "parallel": True},
+          "held_el_before": [], "held_el_after": [], "held_g_before": [], "held_g_after": []}
     try:
         net = gcmpy.EdgeListToNetwork.convert(el)
         tr["G"] = _proj(net.G)
@@ -45,6 +56,13 @@ def execute(case):
             for e, t, m in zip(el2.edge_list, el2.topologies, el2.motif_id):
                 rows.append({"a": int(e[0]), "b": int(e[1]), "top": str(t), "mid": int(m)})
         tr["el2"] = {"jds": [[int(x) for x in j] for j in el2.joint_degrees], "rows": rows, "parallel": par}
+        # history in one process: the objects returned for the PREVIOUS case must still describe the previous case
+        if "el" in _HELD:
+            tr["held_el_before"] = [_HELD["el_proj"]]
+            tr["held_el_after"] = [_proj_el(_HELD["el"])]
+            tr["held_g_before"] = [_HELD["g_proj"]]
+            tr["held_g_after"] = [_proj(_HELD["net"].G)]
+        _HELD.update({"el": el2, "el_proj": _proj_el(el2), "net": net, "g_proj": _proj(net.G)})
     except Exception as ex:
         tr["raised_back"] = type(ex).__name__
         return tr
